@@ -30,13 +30,14 @@ pub fn write_crate(tag: &str, probes: &[Probe], no_mmap: bool) -> PathBuf {
     std::fs::create_dir_all(dir.join("src/bin")).unwrap();
     let feats = if no_mmap { "default-features = false, features = [\"std\", \"derive\"]" } else { "default-features = true" };
     let toml = format!(
-        "[package]\nname = \"vprobes_{}\"\nversion = \"0.1.0\"\nedition = \"2021\"\n\n[workspace]\n\n[dependencies]\nepserde = {{ path = \"{}/epserde\", {} }}\nmaligned = \"0.2\"\n\n[profile.dev]\nopt-level = 0\ndebug = 0\noverflow-checks = true\n",
+        "[package]\nname = \"vprobes_{}\"\nversion = \"0.1.0\"\nedition = \"2021\"\n\n[workspace]\n\n[dependencies]\nepserde = {{ path = \"{}/epserde\", {} }}\nmaligned = \"0.2\"\n\n[patch.crates-io]\nepserde-derive = {{ path = \"{}/epserde-derive\" }}\n\n[profile.dev]\nopt-level = 0\ndebug = 0\noverflow-checks = true\n",
         tag.replace('-', "_"),
         REPO,
-        feats
+        feats,
+        REPO
     );
     std::fs::write(dir.join("Cargo.toml"), toml).unwrap();
-    if !dir.join("Cargo.lock").exists() {
+    if std::fs::read_to_string(dir.join("Cargo.lock")).ok().map_or(true, |l| l.contains("checksum = \"ac80cc78b69765703f48ad93f33b8919cf5d907cda7459ad6ba2919cbbe605dd\"")) {
         std::fs::copy(format!("{}/Cargo.lock", HARNESS), dir.join("Cargo.lock")).ok();
     }
     for p in probes {
